@@ -631,6 +631,16 @@ class ElementFinder(object):
 
         :return: a dictionary containing the structure data
         """
+        if reference[0] == 'leaf' and len(reference) > 5 and element.classname == 'Field' and \
+                reference[2] not in (None, 'varies') and not is_base_datatype(reference[2], element.version):
+            # a field of complex datatype described without its components (e.g. by a message profile that does
+            # not list them): it has the components of its datatype
+            try:
+                reference = ('sequence', load_reference(reference[2], 'Datatypes_Structs', element.version)) + \
+                    tuple(reference[2:])
+            except ChildNotFound:
+                pass  # (a datatype that the version does not define)
+
         data = {
             'reference': reference
         }
